@@ -52,7 +52,7 @@ Proof.
     assert (Ti : s_ties s' = s_ties s).
     { clear -F. inversion F; subst; clear F; try reflexivity;
         try (match goal with H : cont_states _ _ _ |- _ => destruct H as [->| ->] end);
-        cbv zeta; unfold finish_proc, log_watch, log_proc, suspend_waitclk, suspend_waitfor, suspend_waitchange, suspend_waitstable, fresh_id;
+        cbv zeta; unfold finish_proc, log_watch, log_proc, suspend_waitclk, suspend_waitfor, suspend_waitchange, suspend_waitstable, suspend_waitx, fresh_id;
         try (destruct (eff_clk cfg c)); simpl;
         repeat match goal with |- context [add_log ?e ?x] => let H := fresh in pose proof (add_log_bk e x) as H; destruct H as (_ & _ & _ & _ & _ & _ & _ & ->) end;
         try reflexivity.
@@ -60,8 +60,8 @@ Proof.
       simpl. repeat match goal with |- context [add_log ?e ?x] => let H := fresh in pose proof (add_log_bk e x) as H; destruct H as (_ & _ & _ & _ & _ & _ & _ & ->) end.
       reflexivity. }
     constructor; [|congruence].
-    destruct (frame_step_bk cfg f s s' F) as [Q|pid q Q|pid c ph Q|pid m Q|pid Q]; rewrite Q; try exact I1.
-    rewrite ntrig_insert, ntrig_cons. simpl. exact I1.
+    destruct (frame_step_bk cfg f s s' F) as [Q|pid q Q|pid c ph Q|pid m Q|pid Q|pid xi ph Q]; rewrite Q; try exact I1;
+      rewrite ntrig_insert, ntrig_cons; simpl; exact I1.
   - pose proof (task_head_bk t (set_ready r s)) as B. rewrite Hth in B. cbn [snd] in B.
     apply (same_bk_inv7 (set_ready r s) s' B). constructor; assumption.
   - (* event *)
